@@ -162,6 +162,6 @@ def _biased(draw, hi):
 def subs(tier: str):
     q = tier == "quick"
     return [
-        Sub("biased", check, "hypothesis", strategy=lambda: _biased(10 if q else 25), examples=400 if q else 8000),
-        Sub("generic", check, "hypothesis", strategy=lambda: G.generator_call(lo=1, hi=10 if q else 25), examples=150 if q else 3000),
+        Sub("biased", check, "hypothesis", strategy=lambda: _biased(10 if q else 25), examples=800 if q else 8000),
+        Sub("generic", check, "hypothesis", strategy=lambda: G.generator_call(lo=1, hi=10 if q else 25), examples=300 if q else 3000),
     ]
